@@ -465,6 +465,15 @@ class Terms:
         f = cfg.func
         T = lambda x: self._t(cfg, nid, x, env, depth, guard)  # noqa: E731
         args = tuple(T(a) for a in e.args)
+        # f(*(a, b, c)) is f(a, b, c): a starred display (directly or through a local) is its elements
+        if any(a[0] == "star" and a[1][0] in ("tuple", "list") and not any(x[0] == "star" for x in a[1][1]) for a in args):
+            flat = []
+            for a in args:
+                if a[0] == "star" and a[1][0] in ("tuple", "list") and not any(x[0] == "star" for x in a[1][1]):
+                    flat.extend(a[1][1])
+                else:
+                    flat.append(a)
+            args = tuple(flat)
         kwargs = tuple((k.arg, T(k.value)) for k in e.keywords)
         fn = T(e.func)
         # "..{}..".format(a) is the f-string f"..{a}.." (plain fields only); a conditional template is a conditional result
